@@ -45,6 +45,22 @@ fn w3_root(rng: &mut Rng, turns: u32, mid_turn: bool) -> Option<GameState> {
     }
 }
 
+/// Final state of a W5b saturated-neighbourhood script: step 3, the pass and every own step are
+/// withheld (their positions occurred twice), a pull may remain: several history lookups with
+/// different answers per query.
+fn saturated_root(rng: &mut Rng) -> Option<GameState> {
+    let (b, gold, script, _) = crate::workloads::saturated_script(rng)?;
+    let mut g = inject(&b, gold, 2);
+    for c in script {
+        let a = code_act(c);
+        if !g.valid_actions().contains(&a) {
+            return None;
+        }
+        g = g.take_action(&a);
+    }
+    Some(g)
+}
+
 fn setup_root(rng: &mut Rng) -> GameState {
     let mut g = GameState::initial();
     let n = rng.below(32);
@@ -104,7 +120,7 @@ pub fn c18(cfg: &Cfg) -> i32 {
                     let mut rng = Rng::new(cfg.seed, 0x1800 + lane as u64);
                     let mut r = lane as u64;
                     while r < rounds {
-                        let kind = r % 5;
+                        let kind = r % 7;
                         let root = match kind {
                             0 => c18bare::build_root(cfg.seed.wrapping_mul(1000).wrapping_add(r), (r % 40) as u32, false),
                             1 => c18bare::build_root(cfg.seed.wrapping_mul(1000).wrapping_add(r), (r % 25) as u32, true),
@@ -122,16 +138,26 @@ pub fn c18(cfg: &Cfg) -> i32 {
                                     continue;
                                 }
                             },
-                            _ => setup_root(&mut rng),
+                            4 => setup_root(&mut rng),
+                            5 => c18bare::build_repetition_root(r),
+                            _ => match saturated_root(&mut rng) {
+                                Some(g) => g,
+                                None => {
+                                    r += lanes as u64;
+                                    continue;
+                                }
+                            },
                         };
                         let depth = if kind == 4 { 2 } else { 1 + (r % 2) as u32 };
-                        let threads = [4usize, 8, 16, 32, 6][(r % 5) as usize];
+                        let threads = [4usize, 8, 16, 32, 6][((r / 7) % 5) as usize];
+                        let hammer = if kind >= 5 { 40 } else { 2 };
                         let expected = c18bare::sequential(&root, depth);
-                        let rep = c18bare::round(&root, depth, threads, (r / 5) as u32, cfg.seed ^ r, true, &expected);
+                        let rep = c18bare::round(&root, depth, threads, (r / 7) as u32, cfg.seed ^ r, true, hammer, &expected);
                         s.count("rounds");
-                        s.count(["rounds_root_after_setup_and_turns", "rounds_root_mid_turn", "rounds_root_long_shared_history", "rounds_root_long_history_mid_turn", "rounds_root_setup_phase"][kind as usize]);
-                        s.count(["rounds_shared_arc", "rounds_borrowed_with_droppers", "rounds_moved_clones"][((r / 5) % 3) as usize]);
+                        s.count(["rounds_root_after_setup_and_turns", "rounds_root_mid_turn", "rounds_root_long_shared_history", "rounds_root_long_history_mid_turn", "rounds_root_setup_phase", "rounds_root_third_repetition_at_step3", "rounds_root_saturated_all_withheld"][kind as usize]);
+                        s.count(["rounds_shared_arc", "rounds_borrowed_with_droppers", "rounds_moved_clones"][((r / 7) % 3) as usize]);
                         s.add("thread_expansions", rep.threads as u64);
+                        s.add("root_queries_hammered", (hammer as u64) * rep.threads as u64);
                         s.add("nodes_compared", (rep.nodes * rep.threads) as u64);
                         s.max("longest_shared_history", root.as_play_phase().map_or(0, |p| p.hash_history().len() as u64));
                         orders.insert(rep.finish_order.clone());
@@ -152,6 +178,16 @@ pub fn c18(cfg: &Cfg) -> i32 {
                         s.count("shared_tail_list_rounds");
                         if total != n * (t + 16) {
                             s.violate("C18", "shared_tail_list_length", format!("C18|shared_tail|{}|{}", t, n), format!("lists sharing a {}-node tail: total length {} != {}", t, total, n * (t + 16)), json!({"kind": "threads", "observer": "shared_tail_lists"}));
+                        }
+                    }
+                    // last owners dropping at the same instant: stack span while the nodes are freed
+                    for k in 0..cfg.n(6, 60) {
+                        let n = 1500 + (k as usize % 3) * 1500;
+                        let (span, _) = c18bare::concurrent_last_owner_drop(n, 2 + (k as usize % 3), 40);
+                        s.add("simultaneous_last_owner_drop_rounds", 40);
+                        s.max("max_stack_span_bytes_in_simultaneous_drop", span as u64);
+                        if span > 8 * 1024 {
+                            s.violate("C18", "simultaneous_drop_recurses", format!("C18|simultaneous_drop|{}", n), format!("{} threads dropping the last handles of a {}-node list at the same instant: the nodes were freed over a stack span of {} bytes (an iterative drop needs a constant few hundred)", 2 + (k as usize % 3), n, span), json!({"kind": "threads", "observer": "simultaneous_last_owner_drop", "nodes": n, "span_bytes": span}));
                         }
                     }
                     (s, orders)
@@ -249,9 +285,9 @@ pub fn c18(cfg: &Cfg) -> i32 {
 
     let rep = Report {
         evaluations_counter: "nodes_compared",
-        rule: "W12. Observer 1 (build-time): a probe crate requiring Send + Sync of 13 public types (and Arc/Vec/spawn uses) must compile. Observer 2: roots after setup + 0..40 turns, mid-turn roots, W3 roots with shared histories of up to ~200 turns and setup-phase roots are expanded to depth 1-2 by 4..32 threads (shared via Arc, borrowed with concurrent clone/drop threads, or moved clones) in permuted orders with seeded yields/spins between engine calls; every thread's (path, fingerprint) vector must equal the sequential expansion and a deep fingerprint of the root (incl. every history entry) must be unchanged; lists sharing tails of up to 180 000 nodes are dropped from 4..15 threads. Observer 3: the same bare workload (no shared monitor state) under ThreadSanitizer (-Zbuild-std) and under Miri -Zmiri-many-seeds. distinct_nontrivial = distinct thread completion orders observed natively.".into(),
+        rule: "W12. Observer 1 (build-time): a probe crate requiring Send + Sync of 13 public types (and Arc/Vec/spawn uses) must compile. Observer 2: roots after setup + 0..40 turns, mid-turn roots, W3 roots with shared histories, setup-phase roots, scripted third-repetition roots at step 3 and W5b roots where every turn-ender is withheld (several history lookups with different answers per query; these roots are additionally queried 40 times per thread) are expanded to depth 1-2 by 4..32 threads (shared via Arc, borrowed with concurrent clone/drop threads, or moved clones) in permuted orders with seeded yields/spins between engine calls; every thread's (path, fingerprint) vector must equal the sequential expansion and a deep fingerprint of the root (incl. every history entry) must be unchanged; lists sharing tails of up to 180 000 nodes are dropped from 4..15 threads, and 2-4 threads drop the last handles of one list at the same instant (spin barrier) while drop probes measure the stack span over which the nodes are freed. Observer 3: the same bare workload (no shared monitor state) under ThreadSanitizer (-Zbuild-std) and under Miri -Zmiri-many-seeds. distinct_nontrivial = distinct thread completion orders observed natively.".into(),
         assumptions: vec!["'under every interleaving' is sampled (rounds, TSan runs, Miri seeds), not enumerated".into(), "the Send + Sync half is decided by the compiler on a probe crate (a build-time observation)".into(), "TSan/Miri see only the code the bare workload reaches (all public queries + take_action + clone/drop)".into()],
-        floors: vec![floor("rounds", 5000, 150_000), floor("nodes_compared", 500_000, 20_000_000), floor("distinct_thread_completion_orders", 500, 5000), floor("tsan_runs", 12, 200), floor("tsan_nodes_compared", 10_000, 100_000), floor("miri_seeds_completed", 8, 64), floor("autotrait_probe_builds", 1, 1), floor("longest_shared_history", 20, 30)],
+        floors: vec![floor("rounds", 5000, 150_000), floor("nodes_compared", 500_000, 20_000_000), floor("distinct_thread_completion_orders", 500, 5000), floor("tsan_runs", 12, 200), floor("tsan_nodes_compared", 10_000, 100_000), floor("miri_seeds_completed", 8, 64), floor("autotrait_probe_builds", 1, 1), floor("longest_shared_history", 20, 30), floor("rounds_root_third_repetition_at_step3", 500, 15_000), floor("rounds_root_saturated_all_withheld", 400, 12_000), floor("simultaneous_last_owner_drop_rounds", 500, 5000)],
         level: "exploration",
         exhaustive: None,
         extra,
